@@ -57,6 +57,9 @@ CLAIMED["C18"] = ("P2P: one step from every storage state (3 peers, two sharing 
                   "requests, registration only through the sender's own registration request, other records untouched; histories of depth 2. RDAC: every step 0..14 x "
                   "{expected prefix, other prefix, symbolic prefix, 1-octet resets} with symbolic tails: advance only on the expected response, restart on reset, other peer's "
                   "step untouched, completion callback exactly on 13->14; a complete run with interleaving.", "6/C18")
+CLAIMED["C07"] = ("Per (rate, mode, length, preamble count) one symbolic run over ALL payload contents and both addresses: generator -> as_bytes -> from_bytes -> Terminal: burst count, "
+                  "preamble count-down, exactly one started / one data-ended, header pad and block counts, block typing, CRC-9 ok on every confirmed block, data == payload || pad, "
+                  "trailing CRC-32 == independent reference. Lengths bounded around the 1-3 block boundaries (rate 3/4 confirmed: single block only).", "6/C07")
 NOT_YET = {}
 props = [json.loads(l) for l in open(os.path.join(V, "properties.jsonl"))]
 checks = []
